@@ -248,10 +248,33 @@ def run(ctx):
                 Item("kw-all", ksrc, (), S, kwargs={"y": 1.5, "x": 0.25}, native_args=(0.25, 1.5)),
                 Item("kw-unbound-parameter", ksrc, (0.5,), S, kwargs={"z": 2.0}, omits_parameter=True),
                 Item("positional", ksrc, (0.5, 1.0), S)]
+    kw_items.insert(3, Item("kw-surplus", ksrc, (0.5, 1.0), S, kwargs={"dy": 2.0}, native_args=(0.5, 1.0)))
     for it in kw_items:
         ctx.hist("keyword_item_outcome", f"{it.name}: {'path' if it.fresh is not None else 'raises ' + str(it.fresh_error)}")
     for hist in itertools.permutations(range(len(kw_items)), 3):
-        cases.append(run_history(ctx, kw_items, list(hist) + [3], S, "keyword-calls"))
+        cases.append(run_history(ctx, kw_items, list(hist) + [4], S, "keyword-calls"))
+    # kernels written in an EXTENSION of the tweezer group (kirin's vmath added): a tracer built for the tweezer group refuses them, and a
+    # plain tweezer kernel that reaches the extra dialect through such a helper fails - on a fresh instance and on a reused one alike
+    try:
+        from kirin.dialects import vmath
+        from bloqade.shuttle.prelude import tweezer as _tw
+        ext = _tw.add(vmath.dialect)
+        ext_ns = kernels.define("@ext\ndef scaled(xs: ilist.IList[float, Any], factor: float):\n    return vmath.scale(factor, xs)\n", ext=ext, vmath=vmath)
+        ext_src = ("@ext\ndef main(xs: ilist.IList[float, Any], factor: float):\n    action.set_loc(grid.from_positions(xs, [0.0]))\n"
+                   "    action.move(grid.from_positions(vmath.scale(factor, xs), [0.0]))\n")
+        plain_src = ("@tweezer\ndef main(xs: ilist.IList[float, Any], factor: float):\n    action.set_loc(grid.from_positions(xs, [0.0]))\n"
+                     "    action.move(grid.from_positions(scaled(xs, factor), [0.0]))\n")
+        _METHODS[ext_src] = kernels.define(ext_src, ext=ext, vmath=vmath)["main"]
+        _METHODS[plain_src] = kernels.define(plain_src, scaled=ext_ns["scaled"])["main"]
+        xs = ilist.IList([0.0, 1.0])
+        ext_items = [Item("extended-group-kernel", ext_src, (xs, 2.0), S, omits_parameter=True), Item("tweezer-kernel-over-extended-helper", plain_src, (xs, 2.0), S, omits_parameter=True),
+                     fixed[0]]
+        for it in ext_items[:2]:
+            ctx.hist("extended_group_item_outcome", f"{it.name}: {'path' if it.fresh is not None else 'raises ' + str(it.fresh_error)}")
+        for hist in itertools.permutations(range(3), 3):
+            cases.append(run_history(ctx, ext_items, list(hist) + [1, 2], S, "extended-group"))
+    except Exception as e:
+        ctx.obligation("kernels in an extension of the tweezer group can be defined", False, f"{type(e).__name__}: {e}"[:200])
     typed_pool = typed + [fixed[3], fixed[4]]
     for n in (2, 3):
         for hist in itertools.permutations(range(len(typed_pool)), n):
